@@ -33,6 +33,7 @@ var c06Programs = []string{
 	"func g(){ 2d6 }; g() + g()", "func g(n){ n <= 0 ? 0 : d6 + g(n-1) }; g(3)", "&c = 2d6; c + c", "&c = [1,2,3].rand(); [c, c, c]", "`roll {2d6} and {d20}`", "`{% x = d6; x %}-{d6}`",
 	"i = 0; s = 0; while i < 3 { s = s + d6; i = i + 1 }; s", "d6 > 3 ? d20 : d4", "if d6 > 3 { x = d20 } else { x = d4 }; x", "{'a': d6, 'b': d6}.a", "[2d6, 2d6]kh", "ceil(d6 / 2.0)", "d(d6)", "(d4)d(d6)k(d2)",
 	"2c5 + 2a6 + f + b", "[3a9, 2c9, f, p]", "^stA:d6", "^st&A=d6 B:d6",
+	"func g(){ [1,2,3,4].shuffle() }; g()", "func g(){ [1,2,3,4].rand() + [5,6,7].randSize(2)[0] }; g() + g()", "&c = [1,2,3,4].shuffle(); c", "func g(){ &k = [1,2,3].rand(); k + k }; g()", "`{[1,2,3,4].rand()}`",
 }
 
 var c06Stmts = []string{"x = 2d6", "y = [1,2,3,4].shuffle()", "z = 1 + 3d6k2", "func g(){ d20 }; w = g()", "&c = d6; v = c + c", "u = 2c8 + 2a9", "t = [1,2,3].rand()", "s = `{d6}{f}`", "r = b2 + p"}
@@ -52,6 +53,9 @@ func c06Enumerate(tier string, seed int64, emit func(string, any)) {
 			}
 		}
 		emit("interference/default-sides-expr", c06Case{Kind: "interfere", Src: p, Seed: 1, Def: "d4 + 2", Dev: 1})
+		for _, s := range []int64{-1, -2, -3} { // all-zero, all-ones and undecodable seeds
+			emit("interference/special seeds", c06Case{Kind: "interfere", Src: p, Seed: s, Dev: 1})
+		}
 	}
 	for _, s := range seeds[:2] {
 		emit("interference/default-sides-expr", c06Case{Kind: "interfere", Src: "d + 2d", Seed: s, Def: "2d6", Dev: 1})
@@ -62,6 +66,9 @@ func c06Enumerate(tier string, seed int64, emit func(string, any)) {
 		for j := range c06Stmts {
 			for _, sd := range seeds[:2] {
 				emit("lifecycle", c06Case{Kind: "lifecycle", Stmts: []string{c06Stmts[i], c06Stmts[j], c06Stmts[(i+j)%len(c06Stmts)]}, Seed: sd})
+			}
+			if (i+j)%3 == 0 {
+				emit("lifecycle", c06Case{Kind: "lifecycle", Stmts: []string{c06Stmts[i], c06Stmts[j], c06Stmts[(i+j)%len(c06Stmts)]}, Seed: -1})
 			}
 		}
 	}
